@@ -19,7 +19,7 @@ Entry(s, e, b, a, str) == [s |-> s, e |-> e, b |-> b, a |-> a,
                            x |-> [k |-> IF str > 0 THEN "str" ELSE "int", v |-> 0, ty |-> "char", d |-> <<>>, w |-> str]]
 
 TInit == /\ l = 1 /\ ps = Empty
-         /\ top = "int" /\ toks = <<>> /\ p = P0("int") /\ pc = "head"
+         /\ top = "int" /\ form = "plain" /\ toks = <<>> /\ p = P0("int") /\ pc = "head"
 
 EvReset(ev) == ev.e = "Reset" /\ ps' = Empty
 EvBegin(ev) == /\ ev.e = "initbegin"
